@@ -336,8 +336,26 @@ def _with_stored(f, guard):
     return T().visit(copy.deepcopy(test))
 
 
+def _repo_alias(prog, an, rep, f):
+    """clone_git_repo(job) returns job.git.repo: in a job handler that called
+    it, the two texts denote one object (canonical: the call)."""
+    g = need_func(an, GU + '.clone_git_repo')
+    rets = [r for r in walk_local(g.node, include_root=False)
+            if isinstance(r, ast.Return)]
+    same = bool(rets) and all(
+        r.value is not None and
+        canon(g, r.value) == g.params[0] + '.git.repo' for r in rets)
+    rep.check(same, 'C20.ARG.preconditions', g.qname + ' returns '
+              'job.git.repo', g.where(), 'clone_git_repo returns %s' %
+              [src(r.value) if r.value is not None else None for r in rets])
+    if same and an.direct_calls(f, Spec.func(g.qname)):
+        f.aliases = [(f.params[0] + '.git.repo',
+                      'clone_git_repo(%s)' % f.params[0])]
+
+
 def create_preconditions(prog, an, rep):
     f = need_func(an, JOBS + '.create_branch.create_branch')
+    _repo_alias(prog, an, rep, f)
     c = an.cfg(f)
     pushes = [n.id for n in an.target_nodes(f, Spec.func(GU + '.push'),
                                             depth=0)]
@@ -404,6 +422,7 @@ def create_preconditions(prog, an, rep):
 
 def delete_preconditions(prog, an, rep):
     f = need_func(an, JOBS + '.delete_branch.delete_branch')
+    _repo_alias(prog, an, rep, f)
     c = an.cfg(f)
     dd = Spec.func(JOBS + '.delete_branch.do_delete')
     targets = []
